@@ -247,14 +247,31 @@ func checkC13(c *Ctx) {
 			}
 		}
 		// error reaches AddError: the call is the argument of AddError
-		okErr := false
+		okErr, wrongHandle := false, false
 		for _, call := range callsIn(iv.f) {
 			if fn, _ := typeutil.Callee(iv.f.Pkg.TypesInfo, call).(*types.Func); fn != nil && fn.Name() == "AddError" && len(call.Args) == 1 && unparen(call.Args[0]) == ast.Expr(iv.call) {
 				okErr = true
+				// recorded on the operation's handle: the receiver is not a parameter of the hook closure
+				// (its *gorm.DB parameter is the throw-away session handed to the hook)
+				if sel, ok := call.Fun.(*ast.SelectorExpr); ok {
+					if root := rootIdentOf(sel.X); root != nil && iv.f.Type != nil && iv.f.Type.Params != nil {
+						obj := iv.f.Pkg.TypesInfo.Uses[root]
+						for _, fl := range iv.f.Type.Params.List {
+							for _, nm := range fl.Names {
+								if iv.f.Pkg.TypesInfo.Defs[nm] == obj && obj != nil {
+									wrongHandle = true
+								}
+							}
+						}
+					}
+				}
 			}
 		}
 		if !okErr {
 			problems = append(problems, "error result does not go to AddError")
+		}
+		if wrongHandle {
+			problems = append(problems, "the hook's error is recorded on the hook session, not on the operation's handle: the operation reports success and its transaction commits")
 		}
 		rs.Check(len(problems) == 0, iv.f.Name(), desc, iv.call.Pos(), "dispatched through callMethod, guarded, error recorded", strings.Join(problems, "; "))
 	}
